@@ -1,7 +1,9 @@
 //! wwv — conformance harness: drives the real white-whale-core contracts (cw-multi-test)
 //! and records ndjson traces that TLC validates against the TLA+ specifications in ../spec.
 mod adversary;
+mod full;
 mod gen;
+mod variants;
 mod hookrecv;
 mod hub;
 mod rec;
@@ -35,6 +37,9 @@ fn main() {
         "vault" => suites::vault::main(seed, first, runs, ops, &out),
         "lair" => suites::lair::main(seed, first, runs, ops, &out, kv.get("sched"), kv.get("table").and_then(|t| t.parse().ok())),
         "epochs" => suites::epochs::main(seed, first, runs, ops, &out, kv.get("kind").map(|s| s.as_str()).unwrap_or("manager"), kv.get("sched"), kv.get("table").and_then(|t| t.parse().ok())),
+        "fulltest" => { let f = full::Full::new(true); println!("full world ok: {} accounts, digest {}", f.w.accounts.len(), f.w.digest()); }
+        "variants" => { for (c, vs) in variants::all() { println!("{c}: {}", vs.join(" ")); } }
+        "access" => suites::access::main(seed, first, runs, &out, kv.get("sched")),
         "math" => suites::math::main(seed, first, runs, ops, &out, kv.get("kind").map(|s| s.as_str()).unwrap_or("all")),
         _ => {
             eprintln!("unknown suite {suite}");
